@@ -1,18 +1,20 @@
 CONSTANTS
   K = 1
-  MaxNodes = 12
+  MaxNodes = 14
   BaseSet <- AllBases
-  RunCfgSeq <- RunsFp
-  Prods <- KeyProds
-  KISet <- KIAll
+  RunCfgSeq <- RunsEnv
+  Prods <- SibProds
+  KISet <- KIClassic
   EnvWhereSet <- EnvWheres
   SibSeqSet <- SibCover
-  Deviations = {"FingerprintAnyCert"}
-  EmitMin = 9
+  Deviations = {}
+  EmitMin = 1
   EmitFrom = 9
   EmitMod = 1
 INIT Init
 NEXT Next
 INVARIANTS
   AllProps
+  MustRejectAgrees
+  FindSigAgrees
 CHECK_DEADLOCK FALSE
